@@ -4,6 +4,7 @@ CONSTANTS
   PerUser = 2
   MaxSlots = 4
   InitSlots = {0}
+  InitTruth = {"unknown"}
   AnyInitAttr = FALSE
   Statuses = {"unknown", "offline", "away", "online"}
   SlotBudget = 0
@@ -18,7 +19,10 @@ CONSTANTS
   WFriend = 5
   WPriv = 100
   StateChangeNotifies = TRUE
-  SlotsChangeNotifies = FALSE
+  SlotsChangeNotifies = TRUE
+  TaskEndNotifies = FALSE
+  RequeueTail = FALSE
+  TrackPerUser = TRUE
   Bound = 2000000
 CONSTRAINT OnePerUser
 CONSTRAINT EventuallyStartedB
